@@ -30,6 +30,10 @@ ASSUMES = [
     "statement does not say which boundaries count, so only count >= 1 and the model tie are checked there",
 ]
 TRUSTED = [
+    "harness/py2lean.py (translator: task.py's LoopingCall._intervalOf and the howLong closure of _scheduleFrom are "
+    "regenerated into lean/Generated/Looping.lean on every run; translator-regenerated kernel proved equal to the model: "
+    "TwistedProps.C10.gen_intervalOf, gen_howLong, gen_scheduleFrom, gen_howLong_next_boundary, gen_countOf); it renders "
+    "Python % as Int.fmod and int(a / b) as Int.tdiv under the dyadic-exactness assumption below",
     "twisted.internet.task.Clock as the controlled clock (its advance loop is part of the model)",
     "twisted.internet.defer.Deferred / maybeDeferred: a callback added to an unfired Deferred runs exactly when it fires",
 ]
@@ -40,10 +44,14 @@ MANIFEST = {
             "starttime + k*interval strictly after the previous completion (start, reset) and runs in the first advance "
             "reaching it; under withCount the counts of a run sum to the number of boundaries elapsed and the user function "
             "is never skipped; stop()/failure fire start()'s Deferred exactly once and nothing is called afterwards. "
-            "Invariant proof by induction over histories; model tied to task.py by differential runs event by event.",
+            "Invariant proof by induction over histories; model tied to task.py by differential runs event by event, and "
+            "its arithmetic kernels (_intervalOf, howLong) regenerated from task.py by the translator on every run and "
+            "proved equal to the model's functions (gen_* theorems; the no-drift step w + howLong = next boundary is also "
+            "proved directly over the generated howLong).",
     "note": "trusts Lean kernel, the hand-written model of LoopingCall/Clock.advance (differentially tied), exact float "
             "arithmetic on dyadic inputs; the float-absorption branch of howLong is not covered",
-    "technique": "Lean 4 proof (state invariant + ghost monitor, induction over histories) + differential tie",
+    "technique": "Lean 4 proof (state invariant + ghost monitor, induction over histories) + differential tie + "
+                 "translator-regenerated kernel proved equal to the model",
     "design_ref": "DESIGN.md §7 C10",
 }
 
